@@ -1395,3 +1395,41 @@ SPECS["C05"]["level_text"] += (' Props/C05H (track c10enc): DECODER runs (decode
     'anchored calls are NOT proved (the file header states the invariant that is missing), WorldInv.headPos is FALSE along decoder runs with anchored input '
     '(pinned example: decode_read of header-only bytes leaves a zero-count anchor on an empty deque until the next consume), and StreamChunker / StreamReader '
     'have no World-level model yet (what is needed is stated at the end of Props/C05H).')
+
+# ---- track apileft: the last public corners of owning_iovec (values from Default) + stale scope texts of C03/C04
+SPECS["C05"]["lean_modules"] += ["Woodpile.Props.C05B"]
+SPECS["C05"]["theorems"] += [
+    "Woodpile.Props.C05B.s_default_is_wstep",
+    "Woodpile.Props.C05B.arena_default_is_wstep",
+    "Woodpile.Props.C05B.push_anchor_default_effect",
+    "Woodpile.Props.C05B.push_anchor_default_frame",
+    "Woodpile.Props.C05B.push_anchor_default_inv",
+    "Woodpile.Props.C05B.push_anchor_default_exposed_live",
+    "Woodpile.Props.C05B.xreach_inv_partial",
+    "Woodpile.Props.C05B.slice_guarded_x_partial",
+    "Woodpile.Props.C05B.exposed_live_x_partial",
+    "Woodpile.Props.C05B.below_bump_released_x_partial",
+]
+SPECS["C05"]["level_text"] += (' Props/C05B (track apileft): values safe code obtains only through Default. AnchoredSlice::default() IS the WOp step '
+    'read_n(count = 0) on any live iovec\'s arena / detached arena (s_default_is_wstep), ByteArena::default()/new() the step newArena. '
+    'OwningIovec::push_anchor(Default::default()) - reachable by type inference although Anchor is not re-exported; op word push_anchor_default v<i> <n>, n = '
+    'calls of increment_count() before the push - is NOT a WOp history (it leaves a chunk-less zero-count anchor, a separator that decides which anchor '
+    'counts the next borrowed slice and whether the next copy is merged; the scripted histories of harness/src/fam_iovec/api2.rs compare exactly these effects, '
+    'through the live-chunk line and the slice count, with and without the anchor): push_anchor_default_effect (count irrelevant, never panics), _frame (no '
+    'slice, byte, cache, other object or member of the derived live set changes), _inv (ArenaInv kept; every IovOk clause but HeadPos kept; WorldInv kept iff the '
+    'anchor deque was non-empty), _exposed_live (C05\'s conclusion right after the call, whatever the deque held). Histories: XReach = WOp steps + '
+    'AnchoredSlice::default() anywhere + push_anchor of a chunk-less anchor on iovecs with a non-empty anchor deque; *_x_partial restate slice_guarded / '
+    'exposed_live / below_bump / released_only_when_unreachable for them. `_partial`: push_anchor(Default::default()) onto an EMPTY deque leaves the proved '
+    'invariant (HeadPos) until the next consume; those histories are covered by correspondence + oracle only.')
+# C03 / C04: the scope sentence of the original blocks predates Props/C03W, C04W (every handle of every WOp history)
+for _pid in ("C03", "C04"):
+    SPECS[_pid]["level_note"] = SPECS[_pid]["level_note"].replace(
+        " C03/C04 theorems cover single-iovec histories; clone / take / arena swap / foreign anchored slices are exercised by the "
+        "correspondence run and the per-object shadow oracle only (the multi-object frame theorem is C20's).",
+        " Props/C03.lean / C04.lean themselves cover the histories of one iovec over the Op vocabulary; the same clauses for every handle of every "
+        "multi-object WOp history (clone / take / arena hand-off and swap / foreign and detached anchored slices / drops / new_from_slices / read_n) are "
+        "Props/C03W, C04W (side condition FillPrivate, decided by World.okRunB), the anchored composite is Props/C03G, and public-API spellings that are "
+        "not WOp constructors are reduced to WOp histories in Props/C03A, C04A, C05A, C05B.")
+    SPECS[_pid]["level_text"] = SPECS[_pid]["level_text"].replace(
+        "for every history of one iovec over push /", "for every history of one iovec (Props/C03W: of every handle of every multi-object WOp history) over push /").replace(
+        "for every history of one iovec (same vocabulary as C03):", "for every history of one iovec (same vocabulary as C03; Props/C04W: every handle of every multi-object WOp history):")
